@@ -815,7 +815,21 @@ func parseRow(s string, tags []string) (*Row, error) {
 	name, rest := parseLabel(s)
 	r := &Row{Name: name, Text: s, Tags: tags}
 	i := strings.Index(rest, "[")
-	j := strings.LastIndex(rest, "]")
+	j := -1
+	if i >= 0 {
+		depth := 0
+		for k := i; k < len(rest); k++ {
+			if rest[k] == '[' {
+				depth++
+			} else if rest[k] == ']' {
+				depth--
+				if depth == 0 {
+					j = k
+					break
+				}
+			}
+		}
+	}
 	if i < 0 || j < i {
 		return nil, fmt.Errorf("row needs [events]: %q", s)
 	}
@@ -900,17 +914,45 @@ func parseEvPat(s string) (*EvPat, error) {
 		p.Chan = c
 		p.Args = []*SExpr{v}
 	case "call", "go", "defer":
-		c, err := ParseSpecExpr(rest)
-		if err != nil {
-			return nil, err
+		// function names may contain characters that are not part of the expression language ((*T).m$1)
+		i := strings.Index(rest, "(")
+		if i > 0 && strings.HasPrefix(rest, "(") {
+			// name starts with a receiver in parentheses: the argument list is the last (...) group
+			i = -1
 		}
-		if c.Kind == "ident" {
-			p.Fn = c.Name
-		} else if c.Kind == "call" {
-			p.Fn = c.Name
-			p.Args = c.Args
+		if strings.HasSuffix(rest, ")") {
+			// find the matching "(" of the final group
+			depth := 0
+			for k := len(rest) - 1; k >= 0; k-- {
+				if rest[k] == ')' {
+					depth++
+				} else if rest[k] == '(' {
+					depth--
+					if depth == 0 {
+						i = k
+						break
+					}
+				}
+			}
+			// "(*T).m" alone ends with no argument group: the group found is the receiver
+			if i == 0 {
+				i = -1
+			}
 		} else {
-			return nil, fmt.Errorf("call event needs f(args): %q", s)
+			i = -1
+		}
+		if i < 0 {
+			p.Fn = rest
+		} else {
+			p.Fn = strings.TrimSpace(rest[:i])
+			c, err := ParseSpecExpr("f" + rest[i:])
+			if err != nil {
+				return nil, err
+			}
+			p.Args = c.Args
+			if p.Args == nil {
+				p.Args = nil
+			}
 		}
 	default:
 		return nil, fmt.Errorf("unknown event kind %q in %q", p.Kind, s)
